@@ -30,6 +30,16 @@ structure Cfg where
   shards : Nat
 deriving Repr, Inhabited
 
+/-- `checkOptions` (db.go) accepts the configuration: positive file-size limit, `BytesPerSync` at most
+16 MiB, and non-zero when the strategy is `Threshold`.  (`DirPath` non-empty and the merge ratio in
+`[0, 1]` are not part of `Cfg`.) -/
+def Cfg.Valid (c : Cfg) : Prop := c.fileSize > 0 ∧ c.bps ≤ 16777216 ∧ (c.sync = 2 → c.bps > 0)
+instance (c : Cfg) : Decidable c.Valid := by unfold Cfg.Valid; infer_instance
+
+theorem Cfg.Valid.not_rejected {c : Cfg} (h : c.Valid) :
+    ¬ (c.fileSize = 0 ∨ c.bps > 16777216 ∨ (c.sync = 2 ∧ c.bps = 0)) := by
+  unfold Cfg.Valid at h; omega
+
 structure FileSt where
   bytes : ByteArray
   synced : Nat          -- length of the prefix covered by the last fsync/msync
@@ -338,7 +348,7 @@ def openDB (s : St) (dir : String) (cfg : Cfg) : St × Res :=
   match s.db with
   | some _ => (s, .err "already-open")
   | none =>
-    if cfg.fileSize = 0 then (s, .err "options") else
+    if cfg.fileSize = 0 ∨ cfg.bps > 16777216 ∨ (cfg.sync = 2 ∧ cfg.bps = 0) then (s, .err "options") else
     let w := if (s.world.get dir).isNone then s.world.set dir DirSt.empty else s.world
     let d := (w.get dir).getD DirSt.empty
     if d.locked then ({ s with world := w }, .err "inuse") else
